@@ -66,6 +66,7 @@ type scenario struct {
 	DateFlag bool
 	How      int  // how the logger becomes colored: 0 SetColorMode(true), 1 option of New, 2 option of New on a JSON parent, 3 WithColorMode method on a logfmt parent
 	FlagsHow int  // which public way sets the flags (vlib.SetFlagsVia)
+	Disturb  int  // which scratch record is printed right before the record under test (vlib.Disturb; 0 none)
 	PreLog   bool // a colored record at the same (then still unregistered) level value is emitted BEFORE the custom levels are registered
 	Recolour int  // 0: no; otherwise SetLevelColors(severity, ...) with one of a few fg/bg pairs before logging
 }
@@ -163,6 +164,7 @@ func run(t vlib.TB, test string, sc scenario, thruAttrs slog.Attrs, args []any) 
 	lg.SetErrorWriter(w)
 	lg.SetLevel(slog.AlwaysLevel)
 
+	vlib.Disturb(sc.Disturb)
 	func() {
 		defer func() {
 			if p := recover(); p != nil {
@@ -479,6 +481,7 @@ func genScenario(t *rapid.T) (scenario, slog.Attrs, []any) {
 	sc.Recolour = rapid.SampledFrom([]int{0, 0, 0, 1, 2, 3, 4}).Draw(t, "recolour")
 	sc.How = rapid.SampledFrom([]int{0, 0, 1, 2, 3}).Draw(t, "howColoredIsSet")
 	sc.FlagsHow = rapid.SampledFrom([]int{0, 0, 1, 2, 3}).Draw(t, "flagsHow")
+	sc.Disturb = rapid.SampledFrom([]int{0, 0, 0, 1, 2, 3, 4, 5, 6}).Draw(t, "disturbance")
 	sc.PreLog = rapid.IntRange(0, 3).Draw(t, "preLogWhileUnregistered") == 0
 	sc.TS = vlib.GenTime().Draw(t, "ts")
 	sc.ViaVerb = rapid.IntRange(0, 3).Draw(t, "viaVerb") == 0
